@@ -256,6 +256,167 @@ example : signedMisesTrace (⟨1, -3, 0, 2, 0, 0⟩ : Voigt ℝ) = - mises ⟨1,
 example : signedTrescaAbsMax (⟨-5, 1, 3⟩ : Principal ℝ) = - tresca ⟨-5, 1, 3⟩ := by
   rw [(signedTrescaAbsMax_def _ (by norm_num) (by norm_num)).1, if_neg (by norm_num)]
 
+/-! ## 6b. The tie set of the sign indicators
+
+The signed variants and `abs_max_principal` jump by twice their magnitude where their indicator (the trace,
+resp. `w₂ + w₀`) passes through zero.  Over ℝ they are rotation invariant on every tensor (section 8); a
+floating-point evaluation receives a rotated tensor `Q S Qᵀ` that carries rounding, i.e. a NEIGHBOUR of the
+exact rotation.  The theorems below say exactly when the sign survives going to a neighbour: iff the
+indicator is non-zero, with the margin stated; on the tie set (pure shear, every zero-trace tensor, every
+`w₂ = −w₀`) an arbitrarily small hydrostatic perturbation flips the sign while Mises and Tresca stay the same.
+The harness therefore compares the SIGN across rotation / scaling only outside a rounding window around the
+tie set (c17.py `SIGN_WINDOW`) and counts the comparisons reduced to magnitudes. -/
+
+/-- The trace indicator keeps its sign on every tensor whose normal components are within `δ`, provided
+`|trace| > 3δ`. -/
+theorem signTrace_stable (s t : Voigt ℝ) (δ : ℝ) (h11 : |t.s11 - s.s11| ≤ δ) (h22 : |t.s22 - s.s22| ≤ δ)
+    (h33 : |t.s33 - s.s33| ≤ δ) (hm : 3 * δ < |s.s11 + s.s22 + s.s33|) : signTrace t = signTrace s := by
+  rw [signTrace_real, signTrace_real]
+  rw [abs_le] at h11 h22 h33
+  by_cases h : 0 ≤ s.s11 + s.s22 + s.s33
+  · rw [abs_of_nonneg h] at hm
+    rw [if_pos h, if_pos (by linarith [h11.1, h22.1, h33.1])]
+  · rw [abs_of_neg (not_le.mp h)] at hm
+    rw [if_neg h, if_neg (by linarith [h11.2, h22.2, h33.2])]
+
+/-- The abs-max indicator keeps its sign on every ascending triple whose extreme members are within `δ`,
+provided `|w₂ + w₀| > 2δ`; `abs_max_principal` then moves by at most `δ`. -/
+theorem signAbsMax_stable (w w' : Principal ℝ) (h1 : w.w0 ≤ w.w1) (h2 : w.w1 ≤ w.w2)
+    (h1' : w'.w0 ≤ w'.w1) (h2' : w'.w1 ≤ w'.w2) (δ : ℝ) (d0 : |w'.w0 - w.w0| ≤ δ) (d2 : |w'.w2 - w.w2| ≤ δ)
+    (hm : 2 * δ < |w.w2 + w.w0|) :
+    signAbsMax w' = signAbsMax w ∧ |absMaxPrincipal w' - absMaxPrincipal w| ≤ δ := by
+  rw [(signAbsMax_def w h1 h2).2, (signAbsMax_def w' h1' h2').2, absMaxPrincipal_real, absMaxPrincipal_real,
+    maxPrincipal_asc h1 h2, minPrincipal_asc h1 h2, maxPrincipal_asc h1' h2', minPrincipal_asc h1' h2']
+  have e0 := abs_le.mp d0
+  have e2 := abs_le.mp d2
+  by_cases h : 0 ≤ w.w2 + w.w0
+  · rw [abs_of_nonneg h] at hm
+    have h' : 0 ≤ w'.w2 + w'.w0 := by linarith [e0.1, e2.1]
+    rw [if_pos h, if_pos h', if_pos h, if_pos h']
+    exact ⟨rfl, d2⟩
+  · rw [abs_of_neg (not_le.mp h)] at hm
+    have h' : ¬ 0 ≤ w'.w2 + w'.w0 := by
+      intro hh; linarith [e0.2, e2.2]
+    rw [if_neg h, if_neg h', if_neg h, if_neg h']
+    exact ⟨rfl, d0⟩
+
+/-- A superposed hydrostatic pressure `p` lowers the eigenvalue triple by `p` and changes neither Mises nor
+Tresca. -/
+theorem hydroShift_invariants (p : ℝ) (s : Voigt ℝ) (w : Principal ℝ) (h : IsEigTriple (tensor s) w) :
+    IsEigTriple (tensor (hydroShift p s)) (shiftW p w) ∧ mises (hydroShift p s) = mises s ∧
+      tresca (shiftW p w) = tresca w := by
+  have hs : IsEigTriple (tensor (hydroShift p s)) (shiftW p w) := by
+    rw [tensor_hydroShift]; exact h.sub_scalar p
+  refine ⟨hs, ?_, ?_⟩
+  · rw [mises_real, mises_real]
+    congr 1
+    simp only [hydroShift]; ring
+  · rw [tresca_asc hs.1 hs.2.1, tresca_asc h.1 h.2.1]
+    simp only [shiftW]; ring
+
+/-- On the tie set of the trace indicator (trace = 0: pure shear, every deviatoric tensor) the variants signed
+by the trace are `+`, and on the neighbour with an arbitrarily small hydrostatic pressure `p > 0` superposed
+they are `−` of the SAME magnitude: a jump of `2·mises` resp. `2·tresca`. -/
+theorem signedTrace_jump_at_tie (s : Voigt ℝ) (w : Principal ℝ) (h : IsEigTriple (tensor s) w)
+    (htr : s.s11 + s.s22 + s.s33 = 0) (p : ℝ) (hp : 0 < p) :
+    signedMisesTrace s = mises s ∧ signedMisesTrace (hydroShift p s) = - mises s ∧
+    signedTrescaTrace s w = tresca w ∧ signedTrescaTrace (hydroShift p s) (shiftW p w) = - tresca w := by
+  obtain ⟨hs, hM, hT⟩ := hydroShift_invariants p s w h
+  have hneg : ¬ 0 ≤ (hydroShift p s).s11 + (hydroShift p s).s22 + (hydroShift p s).s33 := by
+    simp only [hydroShift]; intro hh; linarith
+  rw [(signedMisesTrace_def s).1, (signedMisesTrace_def _).1, (signedTrescaTrace_def s w h.1 h.2.1).1,
+    (signedTrescaTrace_def _ _ hs.1 hs.2.1).1, if_pos htr.ge, if_neg hneg, if_pos htr.ge, if_neg hneg, hM, hT]
+  exact ⟨rfl, rfl, rfl, rfl⟩
+
+/-- On the tie set of the abs-max indicator (`w₂ = −w₀`: pure shear, …) `abs_max_principal` is `w₂` and the
+variants signed by it are `+`; on the neighbour with an arbitrarily small hydrostatic pressure `p > 0`
+superposed `abs_max_principal` is `w₀ − p` and the signed variants are `−` of the SAME magnitude. -/
+theorem signedAbsMax_jump_at_tie (s : Voigt ℝ) (w : Principal ℝ) (h : IsEigTriple (tensor s) w)
+    (htie : w.w2 + w.w0 = 0) (p : ℝ) (hp : 0 < p) :
+    absMaxPrincipal w = w.w2 ∧ absMaxPrincipal (shiftW p w) = w.w0 - p ∧
+    signedMisesAbsMax s w = mises s ∧ signedMisesAbsMax (hydroShift p s) (shiftW p w) = - mises s ∧
+    signedTrescaAbsMax w = tresca w ∧ signedTrescaAbsMax (shiftW p w) = - tresca w := by
+  obtain ⟨hs, hM, hT⟩ := hydroShift_invariants p s w h
+  have hneg : ¬ 0 ≤ (shiftW p w).w2 + (shiftW p w).w0 := by
+    simp only [shiftW]; intro hh; linarith
+  obtain ⟨z1, z2, z3⟩ := (signed_zero_indicator s w h.1 h.2.1).2 htie
+  refine ⟨z3, ?_, z1, ?_, z2, ?_⟩
+  · rw [absMaxPrincipal_real, maxPrincipal_asc hs.1 hs.2.1, minPrincipal_asc hs.1 hs.2.1, if_neg hneg]
+    rfl
+  · rw [(signedMisesAbsMax_def _ _ hs.1 hs.2.1).1, if_neg hneg, hM]
+  · rw [(signedTrescaAbsMax_def _ hs.1 hs.2.1).1, if_neg hneg, hT]
+
+/-- The sign of the trace indicator is determined (the same on all tensors close enough) iff the trace is
+not zero. -/
+theorem signTrace_determined_iff (s : Voigt ℝ) :
+    (∃ δ : ℝ, 0 < δ ∧ ∀ t : Voigt ℝ, |t.s11 - s.s11| ≤ δ → |t.s22 - s.s22| ≤ δ → |t.s33 - s.s33| ≤ δ →
+      |t.s12 - s.s12| ≤ δ → |t.s13 - s.s13| ≤ δ → |t.s23 - s.s23| ≤ δ → signTrace t = signTrace s) ↔
+    s.s11 + s.s22 + s.s33 ≠ 0 := by
+  constructor
+  · rintro ⟨δ, hδ, hall⟩ h0
+    have := hall (hydroShift δ s) (by simp [hydroShift, abs_of_pos hδ]) (by simp [hydroShift, abs_of_pos hδ])
+      (by simp [hydroShift, abs_of_pos hδ]) (by simp [hydroShift, hδ.le]) (by simp [hydroShift, hδ.le])
+      (by simp [hydroShift, hδ.le])
+    rw [signTrace_real, signTrace_real, if_pos h0.ge, if_neg (by simp only [hydroShift]; intro hh; linarith)] at this
+    norm_num at this
+  · intro hne
+    refine ⟨|s.s11 + s.s22 + s.s33| / 4, by positivity, fun t a b c _ _ _ => ?_⟩
+    exact signTrace_stable s t _ a b c (by linarith [abs_pos.mpr hne])
+
+/-- The sign of the abs-max indicator (hence which eigenvalue `abs_max_principal` returns) is determined iff
+`w₂ + w₀ ≠ 0`. -/
+theorem signAbsMax_determined_iff (w : Principal ℝ) (h1 : w.w0 ≤ w.w1) (h2 : w.w1 ≤ w.w2) :
+    (∃ δ : ℝ, 0 < δ ∧ ∀ w' : Principal ℝ, w'.w0 ≤ w'.w1 → w'.w1 ≤ w'.w2 → |w'.w0 - w.w0| ≤ δ →
+      |w'.w1 - w.w1| ≤ δ → |w'.w2 - w.w2| ≤ δ → signAbsMax w' = signAbsMax w) ↔ w.w2 + w.w0 ≠ 0 := by
+  constructor
+  · rintro ⟨δ, hδ, hall⟩ h0
+    have := hall (shiftW δ w) (by simp only [shiftW]; linarith) (by simp only [shiftW]; linarith)
+      (by simp [shiftW, abs_of_pos hδ]) (by simp [shiftW, abs_of_pos hδ]) (by simp [shiftW, abs_of_pos hδ])
+    rw [(signAbsMax_def w h1 h2).2, (signAbsMax_def (shiftW δ w) (by simp only [shiftW]; linarith)
+      (by simp only [shiftW]; linarith)).2, if_pos h0.ge,
+      if_neg (by simp only [shiftW]; intro hh; linarith)] at this
+    norm_num at this
+  · intro hne
+    refine ⟨|w.w2 + w.w0| / 4, by positivity, fun w' a b c _ e => ?_⟩
+    exact (signAbsMax_stable w w' h1 h2 a b _ c e (by linarith [abs_pos.mpr hne])).1
+
+-- the auditor's witness: pure shear 5 in the 1-2 plane (principal stresses −5, 0, 5) and its neighbour with
+-- a hydrostatic pressure of 10⁻⁹ superposed
+example : signedTrescaAbsMax (⟨-5, 0, 5⟩ : Principal ℝ) = tresca ⟨-5, 0, 5⟩ ∧
+    signedTrescaAbsMax (shiftW (1 / 10 ^ 9) ⟨-5, 0, 5⟩) = - tresca (⟨-5, 0, 5⟩ : Principal ℝ) ∧
+    signedMisesTrace (hydroShift (1 / 10 ^ 9) ⟨0, 0, 0, 5, 0, 0⟩) = - mises (⟨0, 0, 0, 5, 0, 0⟩ : Voigt ℝ) := by
+  have h := pureShear_eigTriple 5 (by norm_num)
+  have a := signedAbsMax_jump_at_tie ⟨0, 0, 0, 5, 0, 0⟩ ⟨-5, 0, 5⟩ h (by norm_num) (1 / 10 ^ 9) (by positivity)
+  have b := signedTrace_jump_at_tie ⟨0, 0, 0, 5, 0, 0⟩ ⟨-5, 0, 5⟩ h (by norm_num) (1 / 10 ^ 9) (by positivity)
+  exact ⟨a.2.2.2.2.1, a.2.2.2.2.2, b.2.1⟩
+
+example : signTrace (⟨1 + 1 / 10, 2, 3 - 1 / 10, 9, 9, 9⟩ : Voigt ℝ) = signTrace ⟨1, 2, 3, 4, 5, 6⟩ :=
+  signTrace_stable _ _ (1 / 10) (by norm_num) (by norm_num) (by norm_num) (by norm_num)
+
+example : signAbsMax (⟨-5 - 1 / 10, 1, 3 + 1 / 10⟩ : Principal ℝ) = signAbsMax ⟨-5, 1, 3⟩ :=
+  (signAbsMax_stable ⟨-5, 1, 3⟩ _ (by norm_num) (by norm_num) (by norm_num) (by norm_num) (1 / 10)
+    (by norm_num) (by norm_num) (by norm_num)).1
+
+example : IsEigTriple (tensor (hydroShift 2 ⟨1, 2, 3, 0, 0, 0⟩)) (shiftW 2 ⟨1, 2, 3⟩) ∧
+    mises (hydroShift 2 ⟨1, 2, 3, 0, 0, 0⟩) = mises (⟨1, 2, 3, 0, 0, 0⟩ : Voigt ℝ) ∧
+    tresca (shiftW 2 ⟨1, 2, 3⟩) = tresca (⟨1, 2, 3⟩ : Principal ℝ) :=
+  hydroShift_invariants 2 _ _ (isEigTriple_diag (by norm_num) (by norm_num))
+
+-- compressive tensor: the sign of the abs-max indicator is determined; pure shear: it is not
+example : ∃ δ : ℝ, 0 < δ ∧ ∀ w' : Principal ℝ, w'.w0 ≤ w'.w1 → w'.w1 ≤ w'.w2 → |w'.w0 - (-5)| ≤ δ →
+    |w'.w1 - 1| ≤ δ → |w'.w2 - 3| ≤ δ → signAbsMax w' = signAbsMax ⟨-5, 1, 3⟩ :=
+  (signAbsMax_determined_iff ⟨-5, 1, 3⟩ (by norm_num) (by norm_num)).mpr (by norm_num)
+
+example : ¬ ∃ δ : ℝ, 0 < δ ∧ ∀ w' : Principal ℝ, w'.w0 ≤ w'.w1 → w'.w1 ≤ w'.w2 → |w'.w0 - (-5)| ≤ δ →
+    |w'.w1 - 0| ≤ δ → |w'.w2 - 5| ≤ δ → signAbsMax w' = signAbsMax ⟨-5, 0, 5⟩ := by
+  intro h
+  exact ((signAbsMax_determined_iff ⟨-5, 0, 5⟩ (by norm_num) (by norm_num)).mp h) (by norm_num)
+
+example : ¬ ∃ δ : ℝ, 0 < δ ∧ ∀ t : Voigt ℝ, |t.s11 - 0| ≤ δ → |t.s22 - 0| ≤ δ → |t.s33 - 0| ≤ δ →
+    |t.s12 - 5| ≤ δ → |t.s13 - 0| ≤ δ → |t.s23 - 0| ≤ δ → signTrace t = signTrace ⟨0, 0, 0, 5, 0, 0⟩ := by
+  intro h
+  exact ((signTrace_determined_iff ⟨0, 0, 0, 5, 0, 0⟩).mp h) (by norm_num)
+
 /-! ## 7. Positive homogeneity -/
 
 theorem mises_smul (c : ℝ) (hc : 0 ≤ c) (v : Voigt ℝ) : mises (smulV c v) = c * mises v := by
